@@ -494,7 +494,9 @@ func (ow *opWorld) pdRegionAtTime(id uint64, e *metapb.RegionEpoch, T time.Time)
 		return nil, false
 	}
 	// (an observation may lag the change by some scheduler steps, not by simulated seconds)
-	sure := true
+	// ... and the leader of the picked view must have been observed well before T (a leader change PD handled at the
+	// very instant the operator was built may have come before or after the scheduler looked at the region)
+	sure := T.Sub(pick.at) >= time.Second || pick == &h[0]
 	for i := range h {
 		if d := h[i].at.Sub(T); d > -time.Second && d < time.Second && h[i].leader != pick.leader {
 			sure = false
